@@ -106,6 +106,11 @@ CLAIMED = {
          "Generated-input search: 4k examples quick / 75k thorough of 2-6 execute(sql, params) calls re-using 1-3 SQL texts with 0-4 placeholders, `?` inside literals / quoted identifiers / comments, and int/float/str/bool/None values with edge cases; rows, rowcount and every table are compared after each step.",
          "Values without an SQL literal (NaN, inf, ints beyond 64 bits) must raise or round-trip; steps that raise on both sides do not count as non-trivial.",
          "DESIGN.md §6 C30"),
+ "C32": ("exploration",
+         "metamorphic testing of views and CTEs: a generated query over v0 is executed with v0 as a view, as a WITH clause and with v0 replaced by its defining SELECT as a derived table; the three forms must agree, again after every generated change of the base tables",
+         "Generated-input search: 100k cases quick / 3M thorough; definitions with joins, WHERE, CASE/COALESCE, DISTINCT, aggregates/GROUP BY/HAVING and explicit column lists; outer queries with WHERE on view columns, joins with base tables, aggregates, set operations; empty views and views created before their tables are loaded are generated on purpose.",
+         "The reference is the engine's own derived-table execution (C01 decides that); no LIMIT/OFFSET, RIGHT/FULL joins, self joins or subqueries in the outer query.",
+         "DESIGN.md §6 C32"),
  "C15": ("exploration",
          "invariant testing of index structures: after every statement of a generated history the PK hash index, UNIQUE hash indexes and every user index map are compared with a rebuild from scratch on a clone",
          "Generated-input search: 250k histories quick / 6M thorough with position-shifting deletes, updates of indexed/key columns, DELETE-all/TRUNCATE, INSERT..SELECT; uses only public APIs (primary_key_index, unique_indexes, get_index_data, rebuild_indexes).",
